@@ -6,9 +6,13 @@
      plane is interior to two copies.  
    - C01_scored_convex_polygon_packing: for convex polygon shapes, two placed copies sharing an interior
      point are further apart than 2R or one has all its vertices strictly inside the other (uses the
-     completeness of the polygon pair test, props/C12.v). *)
+     completeness of the polygon pair test, props/C12.v);
+   - C01_scored_convex_shape_packing_no_overlap: with the radius the code computes, and convexity / closedness
+     assumed of the SHAPE only (rigid placements keep them: C01_placed_convex), the far case is excluded too
+     (C01_inside_within_radius: a closed convex polygon lies within the circle through its farthest vertex;
+     C01_far_convex_polygons_disjoint): two placed copies share NO interior point, up to nesting. *)
 From Coq Require Import ZArith List Bool Reals Lra. Import ListNotations.
-From PV Require Import Num NumR model.Geom proofs.LatticeFacts proofs.SiteFacts proofs.OverlapFacts proofs.ConvexFacts proofs.PackingFacts proofs.PolygonFacts proofs.RadiusFacts.
+From PV Require Import Num NumR model.Geom proofs.LatticeFacts proofs.SiteFacts proofs.OverlapFacts proofs.ConvexFacts proofs.EnclosedFacts proofs.PackingFacts proofs.PolygonFacts proofs.RadiusFacts proofs.PolygonPacking.
 
 Theorem C01_scored_disc_packing_has_no_overlap :
   forall (st : pstateR) (l : list discR), wf_state st -> rigid_inputs st -> p_shape NumR st =
@@ -104,4 +108,56 @@ Theorem C01_scored_disc_packing_computed_radius :
     (placed_mol (image st j n m) l) p).
 Proof. exact scored_disc_packing_has_no_overlap_computed_radius. Qed.
 Print Assumptions C01_scored_disc_packing_computed_radius.
+
+Theorem C01_inside_within_radius :
+  forall (sigma : R) (P : list segR) (c x : pt) (Rad : R), convex sigma P -> closed P -> P <> []
+    -> (0 <= Rad)%R -> (forall e : segR, In e P -> ((fst (seg_start e) - fst c) * (fst
+    (seg_start e) - fst c) + (snd (seg_start e) - snd c) * (snd (seg_start e) - snd c) <= Rad *
+    Rad)%R) -> strictly_inside sigma P x -> ((fst x - fst c) * (fst x - fst c) + (snd x - snd c)
+    * (snd x - snd c) <= Rad * Rad)%R.
+Proof. exact inside_within_radius. Qed.
+Print Assumptions C01_inside_within_radius.
+
+Theorem C01_far_convex_polygons_disjoint :
+  forall (sP sQ : R) (P Q : list segR) (cP cQ x : pt) (Rad : R), convex sP P -> convex sQ Q ->
+    closed P -> closed Q -> P <> [] -> Q <> [] -> (0 <= Rad)%R -> (forall e : segR, In e P ->
+    ((fst (seg_start e) - fst cP) * (fst (seg_start e) - fst cP) + (snd (seg_start e) - snd cP)
+    * (snd (seg_start e) - snd cP) <= Rad * Rad)%R) -> (forall e : segR, In e Q -> ((fst
+    (seg_start e) - fst cQ) * (fst (seg_start e) - fst cQ) + (snd (seg_start e) - snd cQ) * (snd
+    (seg_start e) - snd cQ) <= Rad * Rad)%R) -> (Rad * 2 * (Rad * 2) < (fst cP - fst cQ) * (fst
+    cP - fst cQ) + (snd cP - snd cQ) * (snd cP - snd cQ))%R -> ~ (strictly_inside sP P x /\
+    strictly_inside sQ Q x).
+Proof. exact far_convex_polygons_disjoint. Qed.
+Print Assumptions C01_far_convex_polygons_disjoint.
+
+Theorem C01_scored_convex_polygon_packing_no_overlap :
+  forall (st : pstateR) (l : list segR) (fmin_ : R), wf_state st -> rigid_inputs st -> p_shape
+    NumR st = Poly l -> l <> [] -> p_radius NumR st = shape_radius NumR fmin_ (p_shape NumR st)
+    -> packed_score NumR st <> None -> forall (i j : nat) (n m : Z), i < length (p_syms NumR st)
+    -> j < length (p_syms NumR st) -> ~ (i = j /\ n = 0%Z /\ m = 0%Z) -> let P := placed_poly
+    (copy st i) l in let Q := placed_poly (image st j n m) l in forall sP sQ : R, convex sP P ->
+    convex sQ Q -> closed P -> closed Q -> forall x : pt, strictly_inside sP P x ->
+    strictly_inside sQ Q x -> (forall e : segR, In e P -> strictly_inside sQ Q (seg_start e)) \/
+    (forall f : segR, In f Q -> strictly_inside sP P (seg_start f)).
+Proof. exact scored_convex_polygon_packing_no_overlap. Qed.
+Print Assumptions C01_scored_convex_polygon_packing_no_overlap.
+
+Theorem C01_scored_convex_shape_packing_no_overlap :
+  forall (st : pstateR) (l : list segR) (fmin_ sigma : R), wf_state st -> rigid_inputs st ->
+    p_shape NumR st = Poly l -> l <> [] -> convex sigma l -> closed l -> p_radius NumR st =
+    shape_radius NumR fmin_ (p_shape NumR st) -> packed_score NumR st <> None -> forall (i j :
+    nat) (n m : Z), i < length (p_syms NumR st) -> j < length (p_syms NumR st) -> ~ (i = j /\ n
+    = 0%Z /\ m = 0%Z) -> let P := placed_poly (copy st i) l in let Q := placed_poly (image st j
+    n m) l in forall x : pt, strictly_inside (sigma * det2 (copy st i)) P x -> strictly_inside
+    (sigma * det2 (image st j n m)) Q x -> (forall e : segR, In e P -> strictly_inside (sigma *
+    det2 (image st j n m)) Q (seg_start e)) \/ (forall f : segR, In f Q -> strictly_inside
+    (sigma * det2 (copy st i)) P (seg_start f)).
+Proof. exact scored_convex_shape_packing_no_overlap. Qed.
+Print Assumptions C01_scored_convex_shape_packing_no_overlap.
+
+Theorem C01_placed_convex :
+  forall (sigma : R) (t : tfR) (l : list segR), affine_row t -> rigid t -> convex sigma l ->
+    convex (sigma * det2 t) (placed_poly t l).
+Proof. exact placed_convex. Qed.
+Print Assumptions C01_placed_convex.
 
